@@ -100,6 +100,12 @@ def generate(seed, tier="quick", mode=None, **kw):
             if val not in used_vals and len(val) > len(good) - 1:
                 used_vals.add(val)
                 secrets[str(n0 + j)] = {"cls": "j9raw", "a": val, "b": val}
+    if mode == "c08" and not odd_salt and r.random() < 0.12:
+        # Juniper plaintexts that differ only in white space at their ends (only ever seen encoded): different secrets
+        n0 = len(secrets)
+        P = G.gen_secret(r, "j9p")
+        for j, val in enumerate(r.sample([P, P + " ", " " + P, "\t" + P, P + "\xa0", P + "  ", P + "\x1f"], r.randint(2, 4))):
+            secrets[str(n0 + j)] = {"cls": "j9p-ws", "a": val, "b": val}
     ctx = GC.make_ctx(r, o)
     nfiles = r.randint(1, 6)
     paths, dirs, _ = GC.gen_tree(r, nfiles, hidden=False, dirs=r.random() < 0.5)
@@ -126,8 +132,8 @@ def generate(seed, tier="quick", mode=None, **kw):
                 # the same Juniper plaintext in clear, in a slot that takes text
                 for s in ln["segs"]:
                     if s[0] == "sec" and s[2].get("enc") == "j9" and r.random() < 0.3:
-                        pc = {"j9p": "text", "j9p-num": "num", "j9p-hex": "hex", "j9p-l1": "text"}[secrets[str(s[2]["id"])]["cls"]]
-                        if pc in _allowed(ln["tmpl"]):
+                        pc = {"j9p": "text", "j9p-num": "num", "j9p-hex": "hex", "j9p-l1": "text"}.get(secrets[str(s[2]["id"])]["cls"])
+                        if pc is not None and pc in _allowed(ln["tmpl"]):
                             s[2]["enc"] = "plain"
                 if r.random() < 0.012:
                     ln = GC.long_pad(r, ln, secrets)    # a line longer than the default buffer size, cut inside its sensitive part
